@@ -878,6 +878,16 @@ func (t *State) doTxInternal(tx *pb.Transaction, batch kvdb.Batch, cacheFiller *
 		t.log.Warn("coinbase tx spends outputs or writes keys", "txid", utils.F(tx.Txid))
 		return ErrInvalidCoinbaseTx
 	}
+	// an award output addressed to the fee placeholder is skipped below (never counted into the total supply) and
+	// then credited to the proposer by payFee: tokens nobody minted
+	if tx.Coinbase {
+		for _, txOutput := range tx.TxOutputs {
+			if bytes.Equal(txOutput.ToAddr, []byte(FeePlaceholder)) {
+				t.log.Warn("coinbase tx pays to the fee placeholder", "txid", utils.F(tx.Txid))
+				return ErrInvalidCoinbaseTx
+			}
+		}
+	}
 	// likewise the autogen flag exempts a transaction from signature verification: only the shape of the timer
 	// transaction the node generates itself (a read / write set, checked by ImmediateVerifyAutoTx) may carry it
 	if tx.Autogen && (len(tx.TxInputs) > 0 || len(tx.TxOutputs) > 0 || !t.verifyAutogenTxValid(tx)) {
